@@ -88,7 +88,8 @@ def cgen_value(ctx, name='req_cgen'):
 class Shape:
     def __init__(self, name, request, world=std_world, wkw=None, kind='',
                  version='1.36', expect=(), targets=(), consumers=(),
-                 prov=None, project='proj', user='user', ctype=None):
+                 prov=None, project='proj', user='user', ctype=None,
+                 attrs=None):
         self.name = name
         self.request = request      # (ctx, w, shape) -> Response
         self.world = world
@@ -100,6 +101,8 @@ class Shape:
         self.consumers = tuple(consumers)  # consumers the request writes
         self.prov = prov                   # provider whose inv/traits/aggs
         self.project, self.user, self.ctype = project, user, ctype
+        # per-consumer (project, user, type) where they differ
+        self.attrs = attrs or {}
 
 
 # ---- allocation shapes ----------------------------------------------------
@@ -126,14 +129,17 @@ def _alloc_body(ctx, allocs, version, project='proj', user='user',
 
 
 def put_alloc(targets, version='1.36', consumer=1, project='proj',
-              user='user', rc='VCPU', ctype='INSTANCE'):
-    """PUT /allocations/{c}: targets = list of provider numbers or BAD"""
+              user='user', rc='VCPU', ctype='INSTANCE', rcs=None):
+    """PUT /allocations/{c}: targets = list of provider numbers or BAD;
+    rcs = several classes asked of every target"""
     def request(ctx, w, shape):
         allocs = {}
         for i, t in enumerate(targets):
             uuid = BAD if t == 'bad' else U(t)
             allocs[uuid] = {'resources': {
                 rc: ctx.int('amt_%d' % i)}}
+            for c in (rcs or ())[1:]:
+                allocs[uuid]['resources'][c] = ctx.int('amt_%d_%s' % (i, c))
         body = _alloc_body(ctx, allocs, version, project, user,
                            ctype=ctype, n=consumer)
         return app.call('PUT', '/allocations/' + CONS(consumer), body,
@@ -195,8 +201,9 @@ def put_alloc_empty(version='1.36', consumer=1):
     return request
 
 
-def post_alloc(entries, version='1.36'):
-    """POST /allocations: entries = {consumer number: list of targets}"""
+def post_alloc(entries, version='1.36', attrs=None, rcs=('VCPU',)):
+    """POST /allocations: entries = {consumer number: list of targets};
+    attrs = {consumer number: (project, user, consumer type)}"""
     def request(ctx, w, shape):
         body = {}
         for n, targets in entries.items():
@@ -204,8 +211,12 @@ def post_alloc(entries, version='1.36'):
             for i, t in enumerate(targets):
                 uuid = BAD if t == 'bad' else U(t)
                 allocs[uuid] = {'resources': {
-                    'VCPU': ctx.int('amt_c%d_%d' % (n, i))}}
-            body[CONS(n)] = _alloc_body(ctx, allocs, version, n=n)
+                    c: ctx.int('amt_c%d_%d%s' % (n, i, '' if c == 'VCPU'
+                                                 else '_' + c))
+                    for c in rcs}}
+            pj, us, ct = (attrs or {}).get(n, ('proj', 'user', 'INSTANCE'))
+            body[CONS(n)] = _alloc_body(ctx, allocs, version, pj, us,
+                                        ctype=ct, n=n)
         return app.call('POST', '/allocations', body, version=version)
     return request
 
@@ -217,7 +228,8 @@ def delete_alloc(consumer=1, version='1.36'):
     return request
 
 
-def reshape(move_alloc=True, alloc_target=2, version='1.36', drop=False):
+def reshape(move_alloc=True, alloc_target=2, version='1.36', drop=False,
+            attrs=('proj', 'user', 'INSTANCE')):
     """POST /reshaper: VCPU inventory moves from p1 to p2 (p1 keeps DISK_GB);
     c1's allocation follows (or not)."""
     def request(ctx, w, shape):
@@ -235,7 +247,8 @@ def reshape(move_alloc=True, alloc_target=2, version='1.36', drop=False):
             tgt = BAD if alloc_target == 'bad' else U(alloc_target)
             allocs[CONS(1)] = _alloc_body(
                 ctx, {tgt: {'resources': {'VCPU': ctx.int('amt_0')}}}
-                if move_alloc else {}, version, n=1)
+                if move_alloc else {}, version, attrs[0], attrs[1],
+                ctype=attrs[2], n=1)
         return app.call('POST', '/reshaper',
                         {'inventories': inv, 'allocations': allocs},
                         version=version, roles='admin,service')
@@ -421,9 +434,34 @@ def shapes(tier):
           consumers=[3]),
         S('alloc-post-badrp-second', post_alloc({1: [1], 3: ['bad']}),
           kind='alloc', consumers=[1, 3]),
+        # an existing consumer re-owned / re-typed in a request whose other
+        # entry may be refused at the allocation stage
+        S('alloc-post-2c-1.38-newattrs',
+          post_alloc({1: [1], 3: [1]}, version='1.38',
+                     attrs={1: ('proj2', 'user2', 'MIGRATION')}),
+          version='1.38', kind='alloc', wkw=dict(ctypes=True), targets=[1],
+          consumers=[1, 3], ctype='INSTANCE',
+          attrs={1: ('proj2', 'user2', 'MIGRATION')}),
+        S('alloc-post-2c-newowner',
+          post_alloc({1: [1], 3: [2]}, attrs={1: ('proj2', 'user', None)}),
+          kind='alloc', targets=[1, 2], consumers=[1, 3],
+          attrs={1: ('proj2', 'user', None)}),
+        # several classes asked of one provider that has only some of them
+        S('alloc-put-2classes-p2', put_alloc([2], rcs=('VCPU', 'DISK_GB')),
+          kind='alloc', consumers=[1]),
+        S('alloc-put-2p-2classes', put_alloc([1, 2], rcs=('VCPU', 'DISK_GB')),
+          kind='alloc', consumers=[1]),
+        S('alloc-post-2c-2classes',
+          post_alloc({1: [1], 3: [2]}, rcs=('VCPU', 'DISK_GB')),
+          kind='alloc', consumers=[1, 3]),
         S('alloc-delete', delete_alloc(1), kind='alloc-delete', consumers=[1]),
         S('reshape-move', reshape(True, 2), kind='reshape', targets=[2],
           consumers=[1]),
+        S('reshape-move-1.38-newattrs',
+          reshape(True, 2, version='1.38',
+                  attrs=('proj2', 'user2', 'MIGRATION')),
+          version='1.38', kind='reshape', wkw=dict(ctypes=True), targets=[2],
+          consumers=[1], project='proj2', user='user2', ctype='MIGRATION'),
         S('reshape-clear', reshape(False), kind='reshape', consumers=[1]),
         S('reshape-noalloc', reshape(None), kind='reshape'),
         S('reshape-badrp', reshape(True, 'bad'), kind='reshape',
